@@ -18,10 +18,11 @@ MODULES = {
     "C08": ["C08", "GenNumGammastd", "GenNumGammastdYxt"],
     "C09": ["C09", "GenNumGammastdGrp"],
     "C10": ["C10", "GenKMk", "GenNumMkScore", "GenNumMkVar", "GenNumMkZ", "GenNumMkP", "GenNumMkSens", "GenNumMkTrend"],
-    "C11": ["C11"], "C12": ["C12"], "C13": ["C13"], "C14": ["C14"],
+    "C11": ["C11"], "C12": ["C12"], "C13": ["C13"],
+    "C14": ["C14", "SafeRollingSum", "SafeLroo", "SafeMeanGrp", "SafeDoMean", "SafeAutocorrSums", "SafeMkScoreCounts"],
     "C15": ["C15", "GenKAC", "GenNumACFloat"],
-    "C16": ["C16", "GenKDoMean"],
-    "C17": ["C17", "GenKRS", "GenKMeanGrp"],
+    "C16": ["C16", "GenKDoMean", "GenKDoMeanB"],
+    "C17": ["C17", "C17round", "C17float", "GenKRS", "GenKRSround", "GenKMeanGrp", "GenKMeanGrpB"],
     "C18": ["C18", "GenKLroo"], "C19": ["C19"], "C20": ["C20", "GenNumTI"],
 }
 
